@@ -622,6 +622,11 @@ impl ConfigState {
     /// minimum.
     fn update_http_listener(&mut self, patch: &UpdateHttpListenerConfig) -> Result<(), StateError> {
         validate_h2_flood_knobs_http(patch)?;
+        // Validate every fallible field before touching the listener: a
+        // rejected patch must not leave earlier fields applied.
+        if let Some(ref v) = patch.sozu_id_header {
+            validate_sozu_id_header(v)?;
+        }
 
         let address: SocketAddr = patch.address.into();
         let listener =
@@ -714,7 +719,6 @@ impl ConfigState {
             listener.h2_max_window_update_stream0_per_window = Some(v);
         }
         if let Some(ref v) = patch.sozu_id_header {
-            validate_sozu_id_header(v)?;
             listener.sozu_id_header = Some(v.to_owned());
         }
         Ok(())
